@@ -339,8 +339,20 @@ func (r *RegionScatterer) selectCandidates(region *core.RegionInfo, sourceStoreI
 		log.Error("failed to get the store", zap.Uint64("store-id", sourceStoreID), errs.ZapError(errs.ErrGetSourceStore))
 		return nil
 	}
+	// A peer must not be moved onto a store that holds another peer of the region: that
+	// peer may have no candidate left later and stay where it is, and the two would
+	// collapse into one entry of targetPeers (the region would lose a replica).
+	excluded := make(map[uint64]struct{}, len(selectedStores)+len(region.GetPeers()))
+	for id := range selectedStores {
+		excluded[id] = struct{}{}
+	}
+	for id := range region.GetStoreIds() {
+		if id != sourceStoreID {
+			excluded[id] = struct{}{}
+		}
+	}
 	filters := []filter.Filter{
-		filter.NewExcludedFilter(r.name, nil, selectedStores),
+		filter.NewExcludedFilter(r.name, nil, excluded),
 	}
 	scoreGuard := filter.NewPlacementSafeguard(r.name, r.cluster, region, sourceStore)
 	filters = append(filters, context.filters...)
